@@ -520,7 +520,39 @@ func EnumTrees(ctx *ev.Ctx, fn func(*Config, TreeCase)) string {
 			}
 		}
 	}
-	return "text values of every string-like data type that differ in letter case only, side by side in one message; every single AVP atom (all value atoms of every data type, plain / vendor-specific / undefined code) x header variants; all ordered pairs of the mid alphabet; all ordered triples of the core alphabet; grouped AVPs holding every sequence of <=2 core atoms at nesting depth 1..3 (4 thorough), empty groups, group siblings; all 256 header flag bytes x every dictionary command x ids from {0,1,2^31,2^32-1}^2; under dict.Default (apps 4,0,16777251,16777238,3), base alone, base + each embedded dictionary alone, and a generated dictionary declaring every type name. A case is distinct by (configuration, header, reference encoding of the tree)."
+	// 4b. every command of the base application under the id of every application the
+	// dictionary declares (a session of a vendor application is torn down with the base
+	// STR / ASR, accounted with ACR ...), of an application nobody declared, and of the relay
+	for _, c := range Configs() {
+		if strings.HasPrefix(c.Name, "default/") && c.Name != "default/app4" {
+			continue // same parser as default/app4
+		}
+		own := map[[2]uint32]bool{}
+		apps := []uint32{999, 0xffffffff}
+		seenApp := map[uint32]bool{0: true, 999: true, 0xffffffff: true}
+		var base []uint32
+		for _, cd := range c.A.Cmds {
+			own[[2]uint32{cd.App, cd.Code}] = true
+			if !seenApp[cd.App] {
+				seenApp[cd.App] = true
+				apps = append(apps, cd.App)
+			}
+			if cd.App == 0 {
+				base = append(base, cd.Code)
+			}
+		}
+		for _, app := range apps {
+			for _, code := range base {
+				if own[[2]uint32{app, code}] {
+					continue
+				}
+				for _, f := range []uint8{0x80, 0x00, 0x40} {
+					emit(c, refcodec.Header{Version: 1, Flags: f, Code: code, App: app, HbH: 7, E2E: 9}, nil)
+				}
+			}
+		}
+	}
+	return "every base command under the id of every application a dictionary declares commands for, of an undeclared application and of the relay application; text values of every string-like data type that differ in letter case only, side by side in one message; every single AVP atom (all value atoms of every data type, plain / vendor-specific / undefined code) x header variants; all ordered pairs of the mid alphabet; all ordered triples of the core alphabet; grouped AVPs holding every sequence of <=2 core atoms at nesting depth 1..3 (4 thorough), empty groups, group siblings; all 256 header flag bytes x every dictionary command x ids from {0,1,2^31,2^32-1}^2; under dict.Default (apps 4,0,16777251,16777238,3), base alone, base + each embedded dictionary alone, and a generated dictionary declaring every type name. A case is distinct by (configuration, header, reference encoding of the tree)."
 }
 
 var _ = datatype.UnknownType
